@@ -744,6 +744,16 @@ def rule_inv_unsafe(ctx):
         for g in table['module_groups']:
             if g.endswith('::') and ((' as ' + g) in root or fmod == g):
                 return g
+        # the timestamp accessors of the unsync entry (they read / write the time kept in the entry's own queue node through its pointer), whatever
+        # module of `unsync` the entry type lives in and whether they are inherent methods or impls of one or two accessor traits
+        g_ts = 'unsync::ValueEntry as unsync::AccessTime'
+        if g_ts in table['module_groups'] and fb is not None and fb.impl_self:
+            adt_ = norm(str(fb.impl_self.get('adt') or ''))
+            if adt_.startswith('unsync::') and adt_.endswith('::ValueEntry') and len(fb.blocks) <= 40:
+                grp_ = [fb] + [bc for bc in prog.bodies.values() if bc.kind == 'closure' and bc.root == root]
+                ops_ = {norm(str(t_.get('callee') or '')).split('::')[-1] for bx in grp_ for _, t_ in bx.calls() if t_.get('callee_unsafe') and not t_.get('exp')}
+                if ops_ and ops_ <= {'as_ref', 'as_mut'}:
+                    return g_ts
         return None
     classes = table['cache_level_ops']
 
